@@ -452,10 +452,7 @@ func faultDrive(args []string) error {
 		}
 		// one input with a line of more than two bufio buffers (faults at a sparse set of offsets), in the thorough tier also one
 		// of more than 64 KiB
-		longs := []corpusInput{lineOfLength(fd.name, int64(7070+100*fi), 9000, false)}
-		if maxBytes > 1000 {
-			longs = append(longs, lineOfLength(fd.name, int64(7071+100*fi), 70000, false))
-		}
+		longs := []corpusInput{lineOfLength(fd.name, int64(7070+100*fi), 9000, false), lineOfLength(fd.name, int64(7071+100*fi), 70000, false)}
 		ins = append(ins, longs...)
 		used := 0
 		for ii, in := range ins {
@@ -515,7 +512,11 @@ func faultDrive(args []string) error {
 				}
 			}
 			for k := 0; k <= len(in.Data); k++ {
-				if n := len(in.Data); long && !(k < 40 || k > n-40 || k%509 == 0 || (k+1)%4096 < 3 || k%4096 == 2222) {
+				if n := len(in.Data); n > 20000 && maxBytes <= 1000 { // (quick tier: a few dozen offsets of the longest input)
+					if !(k < 8 || k > n-8 || k%4099 == 7 || k%16384 == 16383) {
+						continue
+					}
+				} else if long && !(k < 40 || k > n-40 || k%509 == 0 || (k+1)%4096 < 3 || k%4096 == 2222) {
 					continue
 				}
 				for _, forever := range []bool{false, true} {
@@ -763,11 +764,21 @@ func stopDrive(args []string) error {
 			// the same input on a stream that fails part-way: stopping on (or just before) the error item
 			if in.WellFormed && len(in.Data) > 2 {
 				rr := newRand(int64(8900 + 100*fi + ii))
-				for j := 0; j < 3; j++ {
+				for j := 0; j < 5; j++ {
 					at, forever := 1+rr.Intn(len(in.Data)-1), j%2 == 0
+					// (j = 3: the error comes in the same Read as the last data, whole input in one Read; j = 4: right before a line break)
+					withData, rs := j >= 3, 7
+					if withData {
+						rs = 1 << 20
+					}
+					if j == 4 {
+						if k := bytes.LastIndexByte(in.Data[:at], '\n'); k > 0 {
+							at = k
+						}
+					}
 					targets = append(targets, stopTarget{name: fd.name + "/Reader-on-failing-stream", errLast: errLast,
 						run: func(v func(gItem) bool) (int, bool) {
-							return fd.reader(&faultReader{data: in.Data, at: at, rs: 7, forever: forever}, v)
+							return fd.reader(&faultReader{data: in.Data, at: at, rs: rs, forever: forever, withData: withData}, v)
 						}})
 				}
 			}
